@@ -8,6 +8,7 @@ Definition chunk_ok (raw : bytes) (x : titem) : Prop :=
   match x with
   | TChunk p b => 0 <= p /\ b = slice raw p (p + blen b) /\ (b <> [] -> p + blen b <= blen raw)
   | TDelim _ _ _ => True
+  | TMove p => 0 <= p
   end.
 
 Theorem unpack_leaf_strict : forall host raw cf c name l s off v o' t,
@@ -40,7 +41,7 @@ Theorem unpack_any_truncation : forall fuel host ct raw c off cut v e t,
 Admitted.
 
 (* ---------- ContextProofs.v ---------- *)
-Definition shift_item (d : Z) (x : titem) : titem := match x with TChunk p b => TChunk (p + d) b | y => y end.
+Definition shift_item (d : Z) (x : titem) : titem := match x with TChunk p b => TChunk (p + d) b | TMove p => TMove (p + d) | TDelim c f b => TDelim c f b end.
 Definition shift_stack (d : Z) (st : stack) : stack := map (fun '(o, f, c) => (o + d, f, c)) st.
 Definition shift_pres (d : Z) (r : pres) : pres :=
   match r with
